@@ -44,7 +44,10 @@ def lookup_obligations(ctx, repo, qual, rule):
         return 0
     g, sites = lookup_sites(fi)
     kinds = sorted(k for k, _, _ in sites)
-    if kinds != ["cfg", "log", "pack"]:
+    # decided by interpretation on a model source (a FILES reply / snapshot whose config and log versions differ):
+    # which modules are asked for and which classes are taken from them - however the names are put together
+    # (string templates read off the statements said the same only while lookup and name sat in one function)
+    if True:
         # imports done another way (helper, variable holding the module): not readable as string templates - decided by
         # interpretation on a model source instead (synchronous owners only; the awaitable connect is run on the
         # connection model by its caller)
@@ -99,7 +102,7 @@ def lookup_obligations(ctx, repo, qual, rule):
 KINDS_INV = {v: k for k, v in KINDS.items()}
 
 
-def lookup_model(ctx, repo, qual, rule):
+def lookup_model(ctx, repo, qual, rule, _observe=None):
     """The same question by interpretation, for code whose lookups are not three visible import_module(..).Class sites
     (helpers, partials, a shared loader): the function is run on a model object with a source (FILES reply / snapshot)
     naming platform 'inYT' / 'Mas-IBC-32K' with DIFFERENT config and log versions; importlib.import_module is a stand-in
@@ -111,7 +114,7 @@ def lookup_model(ctx, repo, qual, rule):
     from .core import AnalysisError
     fi = repo.func(qual)
     n_ok = 0
-    for plat, cv, lv in (("inYT", 61, 59), ("Mas-IBC-32K", 1, 2)):
+    for plat, cv, lv, missing in (("inYT", 61, 59, None), ("Mas-IBC-32K", 1, 2, None), ("inYT", 59, 83, "cfg"), ("inYT", 60, 84, "log")):
         it = Interp(repo, max_depth=12)
         asked, taken = [], []
 
@@ -123,10 +126,13 @@ def lookup_model(ctx, repo, qual, rule):
                 return Native(make, kind)
             return Obj(None, {k: cls(k) for k in KINDS}, name=f"module<{name}>")
 
-        def hook(it_, node, callee, args, kwargs):
+        def hook(it_, node, callee, args, kwargs, missing=missing, cv=cv, lv=lv):
             nm = getattr(callee, "name", "")
             if nm.endswith("import_module"):
                 asked.append(args[0] if args else None)
+                nm_ = str(args[0]) if args else ""
+                if missing is not None and nm_.endswith(f"-{missing}-{cv if missing == 'cfg' else lv}"):
+                    raise PyRaise(f"ModuleNotFoundError: No module named '{nm_}'", node)
                 return module(args[0] if args else None)
             if nm in ("asyncio.sleep",):
                 return None
@@ -144,6 +150,17 @@ def lookup_model(ctx, repo, qual, rule):
         except Undecided as e:
             if len(asked) < 3:
                 raise AnalysisError(f"{qual} on the model source ({plat}, cfg {cv}, log {lv}): {e}")
+        if missing is not None:
+            p = plat.lower()
+            exact = f"{PREFIX}{p}-{missing}-{cv if missing == 'cfg' else lv}"
+            others = [a for a in asked if isinstance(a, str) and f"-{missing}-" in a and a != exact]
+            stood_in = [t for t in taken if f"-{missing}-" in str(t[1])]
+            ctx.ob(rule, f"{qual}::unpublished-{missing}-version::refused", exact in asked and not others and not stood_in,
+                   f"{qual} when the source names {plat} {missing} version {cv if missing == 'cfg' else lv}, for which no table module exists: modules asked for {asked}, classes taken {taken} - "
+                   f"expected the exact module to be asked for and no other version's table to stand in", fi.loc)
+            continue
+        if _observe is not None:
+            _observe(plat, cv, lv, me)
         p = plat.lower()
         want = [f"{PREFIX}{p}", f"{PREFIX}{p}-cfg-{cv}", f"{PREFIX}{p}-log-{lv}"]
         ctx.ob(rule, f"{qual}::modules-asked-for::{plat}", asked == want,
@@ -169,7 +186,7 @@ def _model_module(taken):
     return module
 
 
-def lookup_model_async(ctx, repo, qual, rule):
+def lookup_model_async(ctx, repo, qual, rule, _observe=None):
     """lookup_model for the awaitable connect: GeckoAsyncSpa._connect runs on the connection model (facts.ConnectionModel),
     whose protocol answers the version, channel and FILES requests with model replies - the FILES reply names platform
     'inYT' / 'Mas-IBC-32K' with DIFFERENT config and log versions; importlib.import_module records what is asked for."""
@@ -178,7 +195,7 @@ def lookup_model_async(ctx, repo, qual, rule):
     from .facts import ConnectionModel
     fi = repo.func(qual)
     n_ok = 0
-    for plat, cv, lv in (("inYT", 61, 59), ("Mas-IBC-32K", 1, 2)):
+    for plat, cv, lv, missing in (("inYT", 61, 59, None), ("Mas-IBC-32K", 1, 2, None), ("inYT", 59, 83, "cfg"), ("inYT", 60, 84, "log")):
         asked, taken = [], []
         module = _model_module(taken)
 
@@ -194,9 +211,12 @@ def lookup_model_async(ctx, repo, qual, rule):
         cm = ConnectionModel(repo, connect=False, answer=answer)
         inner = cm.it.call_hook
 
-        def hook(it_, node, callee, args, kwargs, inner=inner):
+        def hook(it_, node, callee, args, kwargs, inner=inner, missing=missing, cv=cv, lv=lv):
             if getattr(callee, "name", "").endswith("import_module"):
                 asked.append(args[0] if args else None)
+                nm_ = str(args[0]) if args else ""
+                if missing is not None and nm_.endswith(f"-{missing}-{cv if missing == 'cfg' else lv}"):
+                    raise PyRaise(f"ModuleNotFoundError: No module named '{nm_}'", node)      # no table was published for that version
                 return module(args[0] if args else None)
             return inner(it_, node, callee, args, kwargs)
         cm.it.call_hook = hook
@@ -208,6 +228,21 @@ def lookup_model_async(ctx, repo, qual, rule):
         except Undecided as e:
             if len(asked) < 3:
                 raise AnalysisError(f"{qual} on the connection model (FILES reply {plat}, cfg {cv}, log {lv}): {e}")
+        if missing is not None:
+            # the spa names a version no table was published for: the connection is refused - no other version's table
+            # may stand in (its positions, bit fields and labels are another layout's; commands would be stamped with
+            # the reported version and built from the wrong table)
+            p = plat.lower()
+            exact = f"{PREFIX}{p}-{missing}-{cv if missing == 'cfg' else lv}"
+            others = [a for a in asked if isinstance(a, str) and f"-{missing}-" in a and a != exact]
+            stood_in = [t for t in taken if f"-{missing}-" in str(t[1])]
+            ctx.ob(rule, f"{qual}::unpublished-{missing}-version::refused", exact in asked and not others and not stood_in and not cm.spa.attrs.get("_is_connected"),
+                   f"{qual} when the FILES reply names {plat} {missing} version {cv if missing == 'cfg' else lv}, for which no table module exists: modules asked for {asked}, classes taken {taken}, "
+                   f"connected={cm.spa.attrs.get('_is_connected')!r} - expected the exact module to be asked for, nothing else of that kind, and the connection refused (events {cm.events[-3:]})", fi.loc,
+                   sample={"rule": rule, "site": qual, "missing": missing, "asked": [str(a) for a in asked]})
+            continue
+        if _observe is not None:
+            _observe(plat, cv, lv, cm.spa)
         p = plat.lower()
         want = [f"{PREFIX}{p}", f"{PREFIX}{p}-cfg-{cv}", f"{PREFIX}{p}-log-{lv}"]
         ctx.ob(rule, f"{qual}::modules-asked-for::{plat}", asked == want,
@@ -218,3 +253,25 @@ def lookup_model_async(ctx, repo, qual, rule):
                f"{qual}: classes instantiated (class, module) = {taken}, expected {want_taken}", fi.loc)
         n_ok += asked == want
     return 3 if n_ok else 0
+
+
+def pack_identity(ctx, repo, rule):
+    """what a command is stamped with is what the connection reported: after the connect step that reads the FILES reply
+    (both stacks, on the lookup models: platform 'inYT' / 'Mas-IBC-32K', config and log versions that differ, a pack
+    class of type 7) the owner's pack_type / config_version / log_version hold the pack class's type and the reply's two
+    versions - wherever in the step, or in a helper of it, they are assigned."""
+    class _Quiet:
+        def __getattr__(self, nm):
+            return lambda *a, **k: None
+    n = 0
+    for qual, model in (("GeckoAsyncSpa._connect", lookup_model_async), ("GeckoSpa._on_config_received", lookup_model)):
+        fi = repo.func(qual)
+        seen = []
+        model(_Quiet(), repo, qual, rule, _observe=lambda plat, cv, lv, me: seen.append((plat, cv, lv, {k: me.attrs.get(k) for k in ("pack_type", "config_version", "log_version")})))
+        bad = [(plat, got) for plat, cv, lv, got in seen if got != {"pack_type": 7, "config_version": cv, "log_version": lv}]
+        n += len(seen)
+        ctx.ob(rule, f"{qual}::pack-identity-from-connection", bool(seen) and not bad,
+               f"{qual}: after a FILES reply (platform, config version, log version) = {[(p_, c_, l_) for p_, c_, l_, _ in seen]} and a pack class of type 7 the connection holds {[g for _, g in bad]}: "
+               f"pack_type / config_version / log_version are not the connected pack's - every set-value and key-press command is stamped with them", fi.loc,
+               sample={"rule": rule, "site": qual, "cases": len(seen)})
+    ctx.count(f"{rule}:pack identity cases", n)
